@@ -19,7 +19,9 @@ import (
 
 type C05Scenario struct {
 	// Metrics: the Exchange is built WithMetrics (a configuration that must not change any result)
-	Metrics   bool          `json:"metrics,omitempty"`
+	Metrics bool `json:"metrics,omitempty"`
+	// Restart: the Exchange is stopped and started again before it is used
+	Restart   bool          `json:"restart,omitempty"`
 	From      uint64        `json:"from"`
 	ToRel     int           `json:"to_rel"` // to = from + to_rel
 	Chunk     uint64        `json:"chunk"`  // MaxHeadersPerRangeRequest
@@ -60,6 +62,8 @@ func genC05(t *rapid.T) C05Scenario {
 		s.Peers = append(s.Peers, script)
 	}
 	s.Metrics = rapid.IntRange(0, 3).Draw(t, "metrics") == 0
+	// no Restart here: the peer tracker is not restartable upstream (its context is created by the constructor), so a
+	// restarted Exchange never learns about peers connecting later; Head/Get (C09, C13) do not depend on it
 	return s
 }
 
@@ -111,8 +115,8 @@ func (e *exchangeEnv) close() {
 }
 
 func runC05(t *testing.T, s C05Scenario) (res Result) {
-	exchangeMetrics = s.Metrics
-	defer func() { exchangeMetrics = false }()
+	exchangeMetrics, exchangeRestart = s.Metrics, s.Restart
+	defer func() { exchangeMetrics, exchangeRestart = false, false }()
 	// a header type with a crashing code path on attacker-chosen content: "no peer response can crash the client"
 	vh.ArmPanics(true)
 	defer vh.ArmPanics(false)
